@@ -133,7 +133,10 @@ func c19CounterNext(r *Run, ic *iterCopy) counterSummary {
 		return bad("no SSA form")
 	}
 	recv := ssa.Value(fn.Params[0])
-	paths, ok := walkPaths(fn, nil, nil)
+	// (unexported helpers of the package -- "is it exhausted?" -- are walked in line)
+	paths, ok := walkPaths(fn, nil, func(caller, callee *ssa.Function) bool {
+		return pkgOf(callee) == fn.Pkg && fnObject(callee) != nil && !fnObject(callee).Exported() && !funcHasLoop(callee)
+	})
 	if !ok || len(paths) == 0 {
 		return bad("paths cannot be enumerated")
 	}
